@@ -69,7 +69,7 @@ Alphabet(f) ==
     [] f = "flo"  -> {"+", "-", "0", "7", ".", "e", "E", "INF", "NaN", " ", "_"}
     [] f = "str"  -> {"a", " ", "TAB", "NL", "7"}
     [] f = "name" -> {"a", "7", ":", "-", " ", ".", "_"}
-    [] f = "hex"  -> {"0", "7", "a", "F", "g", " "}
+    [] f = "hex"  -> {"0", "7", "a", "A", "F", "g", " "}
     [] f = "b64"  -> {"A", "Q", "c", "B", "=", " ", "-"}
     [] f = "uri"  -> {"a", "/", " ", "7", "."}
     [] f = "dur"  -> {"P", "T", "-", "1", "0", "Y", "M", "D", "H", "S", ".", " "}
@@ -141,7 +141,9 @@ DecProbes == {<<"0","0","7",".","7","0","0">>, <<".","7","0">>, <<"-","0",".","0
 DurProbes == {<<"P","T","1",".","1","S">>, <<"P","T","1",".","S">>, <<"P","1","Y","1","M","1","D","T","1","H","1","M","1","S">>,
               <<"P","1","2","M">>, <<"P","T","6","0","S">>, <<"P","1","D","T","2","4","H">>, <<"-","P","T","0",".","5","0","S">>,
               <<"P","1","M","1","Y">>, <<"P","1","Y","T">>, <<"P","1","Y","0","D">>, <<"P","0","Y","T","1","S">>,
-              <<"P","T","0",".","0","S">>, <<"P","1","Y","T","0","S">>, <<"-","P","0","M">>, <<"P","T","1","M","1","H">>}
+              <<"P","T","0",".","0","S">>, <<"P","1","Y","T","0","S">>, <<"-","P","0","M">>, <<"P","T","1","M","1","H">>,
+              <<"P","T","1","H">>, <<"P","1","D","T","1","H">>, <<"P","T","1","M">>, <<"P","T","1","H","1","S">>,
+              <<"P","1","D","T","1","M">>, <<"P","1","M","1","D">>, <<"-","P","1","Y","1","M">>}
 B64Probes == {<<"A","A"," ","=","=">>, <<"A"," ","A"," ","A"," ","A">>, <<"A","A","A","A","A","A","=","=">>,
               <<"A","A","A","A","A","Q","=","=">>, <<"A","A","A","A"," ","A","A","c","=">>, <<"A","A","=","=","A","A","A","A">>,
               <<"A","A","A"," "," ","A">>, <<"/","w","=","=">>, <<"+","INF">>}
